@@ -1344,24 +1344,35 @@ def a8(repo: Repo) -> RuleResult:
             if oa is None or ca is None:
                 res.unsure(f"A8: actions of {opens[0]}/{closes[0]} missing")
                 continue
-            n_push = sum(1 for n in ast.walk(oa.node) if isinstance(n, ast.Call) and isinstance(n.func, ast.Attribute) and n.func.attr == "push_scope")
-            pops = [n for n in ast.walk(ca.node) if isinstance(n, ast.Assign) and isinstance(n.value, ast.Call) and isinstance(n.value.func, ast.Attribute) and n.value.func.attr == "pop_scope"]
-            if n_push != 1:
-                res.bad(Finding("A8", PARSER, oa.node.lineno, f"Parser.{oa.name}", "", f"the opening action pushes {n_push} scopes (exactly one expected)", tag=f"{oa.name}:push"))
-            if len(pops) != 1:
-                res.bad(Finding("A8", PARSER, ca.node.lineno, f"Parser.{ca.name}", "", f"the closing action pops {len(pops)} scopes (exactly one expected): the scope stack goes out of step", witness="any schema with this construct followed by another definition", tag=f"{ca.name}:pop"))
-                continue
-            var = pops[0].targets[0]
-            froz = [n for n in ast.walk(ca.node) if isinstance(n, ast.Call) and isinstance(n.func, ast.Attribute) and n.func.attr == "freeze"]
-            popped_names = {src_of(var)}
-            # proto = cast_or_raise(Proto, scope)
-            for a in ast.walk(ca.node):
-                if isinstance(a, ast.Assign) and isinstance(a.value, ast.Call) and src_of(a.value.func) in ("cast_or_raise", "cast") and len(a.value.args) == 2 and src_of(a.value.args[1]) in popped_names:
-                    popped_names.add(src_of(a.targets[0]))
-            top_level = [st.value for st in ca.node.body if isinstance(st, ast.Expr) and isinstance(st.value, ast.Call)]
-            ok = any(f in top_level and src_of(f.func.value) in popped_names for f in froz)
-            if not ok:
-                res.bad(Finding("A8", PARSER, ca.node.lineno, f"Parser.{ca.name}", "", "the popped scope is not frozen unconditionally: its post-freeze validators (size limits) never run", witness="a message of more than 65535 bits is accepted", tag=f"{ca.name}:freeze"))
+            # on every path that returns normally: the opening action pushes exactly one scope, the
+            # closing action pops exactly one and freezes what it popped
+            try:
+                from .flows import compiler_flow
+                from .normal import V as _V
+                from .normal import show as _show
+
+                fl8 = compiler_flow(repo, "Parser", "parser.py", inline=lambda n_, f_: n_.startswith("_") and n_ not in ("_get_col",), primitives=("push_scope", "pop_scope", "freeze"))
+
+                def run8(act: Any) -> List[Any]:
+                    prm = [a_.arg for a_ in act.node.args.args]
+                    return [p_ for p_ in fl8.run(act.node, {prm[0]: _V("self"), prm[1]: _V("p")}) if p_.done == "return"]
+
+                for p_ in run8(oa):
+                    n_push = sum(1 for e in p_.effects if e.kind == "call" and e.name == "push_scope")
+                    if n_push != 1:
+                        res.bad(Finding("A8", PARSER, oa.node.lineno, f"Parser.{oa.name}", "", f"the opening action pushes {n_push} scopes (exactly one expected)", tag=f"{oa.name}:push"))
+                        break
+                for p_ in run8(ca):
+                    pops = [e for e in p_.effects if e.kind == "call" and e.name == "pop_scope"]
+                    if len(pops) != 1:
+                        res.bad(Finding("A8", PARSER, ca.node.lineno, f"Parser.{ca.name}", "", f"the closing action pops {len(pops)} scopes (exactly one expected): the scope stack goes out of step", witness="any schema with this construct followed by another definition", tag=f"{ca.name}:pop"))
+                        break
+                    froz = [e for e in p_.effects if e.kind == "call" and e.name == "freeze" and e.recv is not None and _show(e.recv) == "self.pop_scope()"]
+                    if not froz:
+                        res.bad(Finding("A8", PARSER, ca.node.lineno, f"Parser.{ca.name}", "", "the popped scope is not frozen unconditionally: its post-freeze validators (size limits) never run", witness="a message of more than 65535 bits is accepted", tag=f"{ca.name}:freeze"))
+                        break
+            except Inconclusive as e:
+                res.unsure(f"A8: {lhs}: {e}")
 
     # (b) freeze chain in utils.frozen and Node
     frz = m.func("bitproto/utils.py", "frozen").node
@@ -1512,7 +1523,14 @@ def a8(repo: Repo) -> RuleResult:
         except Inconclusive:
             return None
         trs = [n for n in ast.walk(mf) if isinstance(n, ast.Try)]
-        good = len(trs) == 1 and any(isinstance(x, ast.Call) and src_of(x.func) == "self.push_filepath" for st_ in trs[0].body for x in ast.walk(st_)) and any(isinstance(x, (ast.Yield, ast.YieldFrom)) for st_ in trs[0].body for x in ast.walk(st_)) and any(isinstance(x, ast.Call) and src_of(x.func) == "self.pop_filepath" for st_ in trs[0].finalbody for x in ast.walk(st_))
+        # acquire inside the try or as the statement right in front of it
+        pre: List[ast.stmt] = []
+        if len(trs) == 1:
+            par_t = parent(trs[0])
+            sib_ = getattr(par_t, "body", []) if par_t is not None else []
+            if trs[0] in sib_ and sib_.index(trs[0]) > 0:
+                pre = [sib_[sib_.index(trs[0]) - 1]]
+        good = len(trs) == 1 and any(isinstance(x, ast.Call) and src_of(x.func) == "self.push_filepath" for st_ in list(trs[0].body) + pre for x in ast.walk(st_)) and any(isinstance(x, (ast.Yield, ast.YieldFrom)) for st_ in trs[0].body for x in ast.walk(st_)) and any(isinstance(x, ast.Call) and src_of(x.func) == "self.pop_filepath" for st_ in trs[0].finalbody for x in ast.walk(st_))
         if not good:
             res.bad(Finding("A8", f"compiler/{rel_sfx}", mf.lineno, f"{cn}.maintain_filepath", "", "the file path is not pushed in try and popped in finally: after an error in an imported file the stack of the importer is left wrong", tag=f"{cn}:maintain_filepath"))
         return good
